@@ -73,7 +73,7 @@ def _binfo():
 
 
 def gen_cases(tier, seed):
-    nb, ns = (88, 24) if tier == "quick" else (700, 100)
+    nb, ns = (56, 16) if tier == "quick" else (700, 100)
     cases = [{"kind": "batch", "seed": [int(seed), i], "count": 25, "tier": tier, "long": False} for i in range(nb)]
     cases += [{"kind": "batch", "seed": [int(seed), 100000 + i], "count": 1, "tier": tier, "long": True} for i in range(ns)]
     # interleave so that every shard gets singles and batches
